@@ -1,0 +1,8 @@
+//go:build !verif
+
+// Package verifhook provides schedule points for the verification harness.
+// Without the "verif" build tag every call is an empty, inlinable function.
+package verifhook
+
+// Point is a no-op unless built with -tags verif.
+func Point(name string) {}
